@@ -36,8 +36,7 @@ assert not _DD.issues and sorted(_DD.defs) == sorted(e.label for e in _REF_DEFS)
 _DV = DefValidator(_DD)
 
 EXPAND, SHRINK, COPY = 0, 1, 2
-_HARDWIRED = True     # True: known-finding exclusions hard-wired on (development); False: governed by known_findings.json
-_POSITIONS = [[1], [1, 3], [0, 1, 2, 3]]
+_HARDWIRED = False    # development switch: True hard-wires every known-finding exclusion on; False = governed by known_findings.json
 
 
 def _env_is(name, x):
@@ -257,15 +256,34 @@ def _kf_no_reexpand(uses, ops):
     return _stale(uses, ops, True, False)
 
 
+def _pinned(name, x, lo, hi):
+    """x equals the cell's value of `name` when the cell pins it (one comparison), else lo <= x <= hi"""
+    c = R.env_int(name)
+    if c is not None:
+        return x == c
+    return lo <= x <= hi
+
+
 def _alg_pre(nm, v, form, pos, n, o1, o2, o3):
-    # -- cell and small ranges first, then the texts, the operation sequence last: a path that is going to be
-    #    rejected because of nm / v is then rejected once, not once per operation sequence
-    if not (0 <= form <= 1 and 0 <= pos <= 3):
+    # -- order matters for cost only: (1) pure integer bounds and cell pins - each failing branch is met once;
+    #    (2) the texts - rejected once, before the operation values are told apart; (3) known findings, which
+    #    need the values of the operations (the solver enumerates them from here on)
+    if not (_pinned("VP_FORM", form, 0, 1) and _pinned("VP_NOPS", n, 0, R.M(3))):
         return False
-    if not (_env_is("VP_FORM", form) and _env_is("VP_POS", pos)):
+    if not (R.env_int("VP_NLO", 0) <= n <= R.env_int("VP_NHI", 3)):
         return False
-    if pos not in _POSITIONS[R.env_int("VP_POSSET", 1)]:
+    ps = R.env_int("VP_POSSET", 1)
+    if not (pos == 1 if ps == 0 else ((pos == 1 or pos == 3) if ps == 1 else 0 <= pos <= 3)):
         return False
+    if not _env_is("VP_POS", pos):
+        return False
+    if not (_pinned("VP_O1", o1, 0, 2) if n >= 1 else o1 == 0):
+        return False
+    if not ((0 <= o2 <= 2) if n >= 2 else o2 == 0) or not ((0 <= o3 <= 2) if n >= 3 else o3 == 0):
+        return False
+    if n >= 1 and not (0 <= o1 <= 2):
+        return False
+    # -- texts
     if len(v) > R.N(2) or not R.scell(v) or len(nm) != 2:
         return False
     if len(v) > 1 and not _env_is("VP_WHICH", _VALUE_DEFS[0]):
@@ -275,8 +293,7 @@ def _alg_pre(nm, v, form, pos, n, o1, o2, o3):
     if not R.ascii_printable(nm) or not R.ascii_printable(v) or not _no_delims(v):
         return False
     nm, v = flat(nm), flat(v)
-    # -- the label is one of the defined ones, any letter case
-    e = D.lookup(_REF_DEFS, nm)
+    e = D.lookup(_REF_DEFS, nm)          # the label is one of the defined ones, in any letter case
     if e is None:
         return False
     if not e.takes_value and len(v) > R.env_int("VP_NV", 0):
@@ -292,19 +309,6 @@ def _alg_pre(nm, v, form, pos, n, o1, o2, o3):
         u = _use_text(nm, v, form)
         if u is None or D.defexpand_valid(u, _REF_DEFS) is not True:
             return False
-    # -- operation sequence
-    if not (0 <= n <= R.M(3)) or not _env_is("VP_NOPS", n):
-        return False
-    if not (R.env_int("VP_NLO", 0) <= n <= R.env_int("VP_NHI", 3)):
-        return False
-    for i, o in enumerate((o1, o2, o3)):
-        if i < n:
-            if not (0 <= o <= 2):
-                return False
-        elif o != 0:
-            return False
-    if n >= 1 and not _env_is("VP_O1", o1):
-        return False
     # -- known findings
     ops = _ops(n, o1, o2, o3)
     if EXPAND in ops:
